@@ -75,8 +75,12 @@ def run(ctx):
                         continue
                     refs = rel_refs(rng, caller, target)
                     ref = rng.choice(refs)
-                    if backing == "strings" and posixpath.normpath(posixpath.join(posixpath.dirname(caller), ref)) != posixpath.join(posixpath.dirname(caller), ref) and not ref.startswith("/"):
+                    # a put_string collection is keyed by the URI as put: a reference that needs normalising (./, ../, //) finds nothing
+                    # there (known finding C07-F2); most string-backed cases therefore use references that need none
+                    unnormal = posixpath.normpath(posixpath.join(posixpath.dirname(caller), ref)) != posixpath.join(posixpath.dirname(caller), ref) and not ref.startswith("/")
+                    if backing == "strings" and unnormal and rng.random() < 0.85:
                         ref = target if rng.random() < 0.5 else posixpath.relpath(target, posixpath.dirname(caller)) if not posixpath.relpath(target, posixpath.dirname(caller)).startswith("..") else target
+                        unnormal = False
                     kind = rng.choice(KINDS)
                     bodies = {f: "[%s]" % f for f in files}
                     if kind == "include":
@@ -121,7 +125,8 @@ def run(ctx):
                     want = ("[%s]C" % want_uri if kind == "inherit" else "C[%s]" % want_uri) if want_uri in files else "lookup-exception"
                     if out != want:
                         ctx.violation(dict(case, rendered=out, expected=want), "the URI does not reach the template at normpath(dirname(caller)/target) (or the lookup root)",
-                                      tags=["c07.uri." + kind])
+                                      tags=["c07.uri.put_string-not-normalised" if (backing == "strings" and out == "lookup-exception" and
+                                                                                      (unnormal or posixpath.normpath(ref) != ref)) else "c07.uri." + kind])
                     req.append("reach|%s|%s" % (enc(ref), enc(caller)))
                     got.append((case, enc(want_uri)))
             # the same relative string written in two templates of different directories, within one render
